@@ -814,7 +814,7 @@ int disasm_msp430(
               snprintf(temp, sizeof(temp), "%d(%s) -- 0x%x",
                 (int16_t)(READ_RAM16(address + 2)),
                 regs[dst],
-                (address + 4) + offset);
+                (address + 2) + offset);
             }
               else
             {
@@ -850,7 +850,7 @@ int disasm_msp430(
           num = ((opcode & 0xf) << 16) | READ_RAM16(address + 2);
           if ((num & 0x80000) != 0) { num |= 0xfff0000; }
           snprintf(instruction, length, "%s 0x%x(%d)",
-            table_msp430[n].instr, address + 4 + num, num);
+            table_msp430[n].instr, address + 2 + num, num);
           *cycles_min = 6;
           *cycles_max = *cycles_min;
           count += 4;
